@@ -281,8 +281,8 @@ def check_suspension(ctx, f, s_p, qmap):
         blk = poolmod.block_of(poolmod.stmt_of(c))
         regs = [n for n in blk if isinstance(n, ast.Assign) and len(n.targets) == 1 and isinstance(n.targets[0], ast.Subscript)
                 and norm.U(n.targets[0].value) == f"{s_p}.suspending" and norm.U(n.targets[0].slice) == f"{sv}.container_id"]
-        okreg = len(regs) == 1
-        d = f"registrations in the block of the Suspend: {[stmt_text(r)[:80] for r in regs]}"
+        okreg = len(regs) == 1 and g.control_equivalent(poolmod.stmt_of(c), regs[0], lp)
+        d = f"registrations in the block of the Suspend: {[stmt_text(r)[:80] for r in regs]}; executed whenever the Suspend is issued: {okreg}"
         if okreg:
             le = {}
             for n in blk:
